@@ -268,14 +268,18 @@ def check(ctx):
     ctx.need(start, "PeerStateMachine.__start")
     loop = next((x for x in walk_no_nested(start) if isinstance(x, ast.While)), None)
     body = [ast.unparse(x) for x in (loop.body if loop else [])]
-    ok = loop is not None and "self.current_state.run()" in body and \
-        any(b.endswith("= self.current_state.next_state") for b in body) and \
-        any(b.startswith("self.current_state = self.get_next_state(") for b in body)
+    ok = loop is not None and "self.current_state.run()" in body
     if ok:
-        var = next(b.split(" = ")[0] for b in body if b.endswith("= self.current_state.next_state"))
-        ok = f"self.current_state = self.get_next_state({var})" in body and \
-            body.index("self.current_state.run()") < body.index(f"{var} = self.current_state.next_state") < \
-            body.index(f"self.current_state = self.get_next_state({var})")
+        # the adopted state is get_next_state(<the next_state of the state that ran>), directly or through one local
+        i_run = body.index("self.current_state.run()")
+        adopt = [i for i, b in enumerate(body) if b.startswith("self.current_state = self.get_next_state(") and i > i_run]
+        ok = len(adopt) == 1
+        if ok:
+            arg = body[adopt[0]][len("self.current_state = self.get_next_state("):-1]
+            if arg != "self.current_state.next_state":
+                src = [i for i, b in enumerate(body) if b == f"{arg} = self.current_state.next_state"]
+                stores = [i for i, b in enumerate(body) if b.startswith(f"{arg} = ") or b.startswith(f"{arg} += ")]
+                ok = arg.isidentifier() and len(src) == 1 and stores == src and i_run < src[0] < adopt[0]
     ctx.decide(ok, "R-FLOW/tick", f"{smc.qual}.__start", smc.where(start),
                "each tick runs the current state and moves to get_next_state(its next_state)",
                "the tick loop does not run the current state and then adopt get_next_state(current_state.next_state)", key="tick")
